@@ -21,7 +21,10 @@ for d in ids:
     rows.append({'change': d, 'file': re.findall(r'\+\+\+ b/(\S+)', open(f'/verif/seeded/{d}/patch.diff').read()), 'summary': meta.get('summary', '')[:160],
                  'exit': r.returncode, 'violations': len(viol), 'with_concrete_input': len(concrete), 'proof_or_tie_broken': [f[:110] for f in failed]})
     print(d, 'exit', r.returncode, 'violations', len(viol), 'concrete', len(concrete), 'broken:', '; '.join(f[:60] for f in failed), flush=True)
-# restore the evidence of the clean tree for the properties touched
+if sys.argv[1:] and os.path.exists('/verif/seeded/MATRIX.json'):
+    old = {r['change']: r for r in json.load(open('/verif/seeded/MATRIX.json'))}
+    for r in rows: old[r['change']] = r
+    rows = [old[k] for k in sorted(old)]
 json.dump(rows, open('/verif/seeded/MATRIX.json', 'w'), indent=1)
 with open('/verif/seeded/MATRIX.md', 'w') as f:
     f.write('| seeded change | files | check exit | VIOLATION lines | with a concrete failing input | proof / tie obligations that broke |\n|---|---|---|---|---|---|\n')
